@@ -305,7 +305,7 @@ func (p *parser) term() (*Term, error) {
 // opNames: operator and builtin names (terms with Op "op"); every other applied name is a call.
 var opNames = map[string]bool{"not": true, "neg": true, "eq": true, "ne": true, "lt": true, "le": true, "gt": true, "ge": true,
 	"add": true, "sub": true, "mul": true, "quo": true, "rem": true, "and": true, "or": true, "xor": true, "shl": true, "shr": true, "andnot": true,
-	"idx": true, "elem": true, "lookup": true, "slice": true, "list": true, "next": true, "range": true, "each": true, "has": true, "alt": true, "non": true,
+	"idx": true, "elem": true, "lookup": true, "slice": true, "list": true, "next": true, "range": true, "each": true, "has": true, "exact": true, "alt": true, "non": true,
 	"len": true, "cap": true, "append": true, "recover": true, "copy": true, "delete": true, "min": true, "max": true, "new": true, "make": true,
 	"panic": true, "print": true, "println": true, "close": true, "complex": true, "real": true, "imag": true, "clear": true, "ssa:wrapnilchk": true}
 
@@ -334,6 +334,13 @@ func Match(p, t *Term, env map[string]*Term) bool {
 		}
 		env[p.Name] = t
 		return true
+	}
+	// exact(p): the value itself, with no field of it updated on any path (switches off the with:-transparency below)
+	if p.Op == "op" && p.Name == "exact" && len(p.Args) == 1 {
+		if t.Op == "call" && (strings.HasPrefix(t.Name, "with:") || strings.HasPrefix(t.Name, "maywith:")) {
+			return false
+		}
+		return Match(p.Args[0], t, env)
 	}
 	// a struct value with individually updated fields, with:F(base, v): a pattern that does not mention the
 	// update describes the base value
